@@ -16,6 +16,13 @@ impl -> spec : the repository's variable fonts (glyf + gvar: NotoSans-VF, Inter,
                CFF2: SourceSansVariable) instanced at default / extreme / one-axis / seeded random
                coordinates; gvar / HVAR / MVAR are split by the harness' own container readers, the
                packed data is decoded by the judge.
+generation 2 : general fonts (family avar: 2-3 fvar axes with real ranges and one avar segment map per axis, user
+               tuples over {min, between, default, between, max}^n, the normalised tuple computed by the
+               specification and bound to Normalize.tla; family nest: composites of composites, depth 3, in three
+               glyph orders, side bearing from glyf / HVAR without / with lsb map; family lay: MVAR record sizes
+               and tag subsets, item variation stores with LONG_WORDS / region index lists / several sub-tables,
+               index maps of every entry size, fvar record sizes and instance records).  Generated fonts are
+               judged at the normalised tuple the SPECIFICATION computes; the tuple instance() reports must agree.
 Every event, generated or recorded, is judged by Trace_Variation (exact rational arithmetic, tolerance
 one font unit, equality at the default coordinates).
 """
@@ -77,7 +84,10 @@ def _key(m):
 
 
 def _plant(events):
-    """Binding self-check: corrupted copies of recorded events, each must be rejected with its clause."""
+    """Binding self-check: corrupted copies of recorded events, each must be rejected with its clause.
+    The events to corrupt are chosen by what went INTO allsorts (fields of "a", all from TLC), and the corrupted
+    numbers are placed relative to the model's own expectation (a.exp), never relative to what allsorts returned:
+    the self-check must not turn a broken tree into a tool error."""
     planted = []
 
     def add(clause, e, fn):
@@ -93,59 +103,89 @@ def _plant(events):
                 return e
         return None
 
-    def moved(e):
-        return e["ev"] == "Glyph" and any(e["a"]["coords"]) and e["o"]["pts"] != e["a"]["pts"]
+    def gen(e):
+        return e["ev"] == "Glyph" and str(e["case"]).startswith("g") and e["a"]["exp"]
 
-    e = first(lambda e: moved(e) and e["a"]["kind"] == "simple")
+    def moving(e):
+        return gen(e) and any(e["a"]["coords"]) and e["a"]["pts"]
+
+    def setk(d, k, v):
+        d[k] = v
+
+    e = first(lambda e: moving(e) and e["a"]["kind"] == "simple")
     if e:
-        add("point", e, lambda b: b["o"]["pts"][0].__setitem__(0, b["o"]["pts"][0][0] + 3))
-        add("shape", e, lambda b: b["o"].__setitem__("on", False))
-        if e["a"]["exp"]:
-            add("transport", e, lambda b: b["a"]["exp"][0].__setitem__(0, b["a"]["exp"][0][0] - 1))
-            add("normalized", e, lambda b: b["a"].__setitem__("norm", [v + 1 for v in b["a"]["norm"]]))
-    e = first(lambda e: moved(e) and e["a"]["kind"] == "composite" and e["a"]["plain"])
+        add("point", e, lambda b: b["o"]["pts"][0].__setitem__(0, b["a"]["exp"][0][1] + 2))
+        add("shape", e, lambda b: setk(b["o"], "on", False))
+        add("transport", e, lambda b: b["a"]["exp"][0].__setitem__(0, b["a"]["exp"][0][0] - 1))
+        add("normalized", e, lambda b: setk(b["a"], "reported", [v + 5 for v in b["a"]["norm"]]))
+        add("bbox", e, lambda b: (setk(b["o"], "obox", [0, 0, 10, 10]), setk(b["o"], "hbox", [-5, 0, 10, 10])))
+    e = first(lambda e: moving(e) and e["a"]["kind"] == "composite" and e["a"]["plain"])
     if e:
-        add("point-composite", e, lambda b: b["o"]["pts"][0].__setitem__(1, b["o"]["pts"][0][1] - 2))
-    e = first(lambda e: e["ev"] == "Glyph" and not any(e["a"]["coords"]) and e["a"]["kind"] == "simple")
+        add("point-composite", e, lambda b: b["o"]["pts"][0].__setitem__(1, b["a"]["exp"][1][0] - 2))
+    e = first(lambda e: gen(e) and not any(e["a"]["coords"]) and e["a"]["kind"] == "simple")
     if e:
-        add("default-point", e, lambda b: b["o"]["pts"][-1].__setitem__(1, b["o"]["pts"][-1][1] + 1))
-        add("default-adv", e, lambda b: b["o"].__setitem__("adv", b["o"]["adv"] + 1))
-        add("default-lsb", e, lambda b: b["o"].__setitem__("lsb", b["o"]["lsb"] - 1))
-    e = first(lambda e: e["ev"] == "Glyph" and any(e["a"]["coords"]) and not e["a"]["hvar"]["present"]
-              and e["a"]["kind"] == "simple" and e["o"]["adv"] != e["a"]["adv"])
+        add("default-point", e, lambda b: b["o"]["pts"][-1].__setitem__(1, b["a"]["pts"][-1][1] + 1))
+        add("default-adv", e, lambda b: setk(b["o"], "adv", b["a"]["adv"] + 1))
+        add("default-lsb", e, lambda b: setk(b["o"], "lsb", b["a"]["lsb"] - 1))
+    e = first(lambda e: moving(e) and not e["a"]["hvar"]["present"] and e["a"]["kind"] == "simple"
+              and 100 < e["a"]["adv"] < 30000)
     if e:
-        add("adv-phantom", e, lambda b: b["o"].__setitem__("adv", b["o"]["adv"] + 3))
-        add("lsb-outline", e, lambda b: b["o"].__setitem__("lsb", b["o"]["lsb"] + 3))
-    e = first(lambda e: e["ev"] == "Glyph" and any(e["a"]["coords"]) and e["a"]["hvar"]["present"]
-              and e["o"]["adv"] != e["a"]["adv"])
+        add("adv-phantom", e, lambda b: setk(b["o"], "adv", b["a"]["exp"][-2][1] + 2))
+        add("lsb-outline", e, lambda b: setk(b["o"], "lsb", 20000))
+    e = first(lambda e: gen(e) and any(e["a"]["coords"]) and e["a"]["hvar"]["present"] and e["a"]["adv"] > 100)
     if e:
-        add("adv-hvar", e, lambda b: b["o"].__setitem__("adv", b["a"]["adv"]))
-    e = first(lambda e: e["ev"] == "Glyph" and any(e["a"]["coords"]) and e["a"]["hvar"]["lsb"]["present"]
-              and e["o"]["lsb"] != e["a"]["lsb"])
+        add("adv-hvar", e, lambda b: setk(b["o"], "adv", b["a"]["exp"][-2][1] + 2))
+    e = first(lambda e: gen(e) and any(e["a"]["coords"]) and e["a"]["hvar"]["lsb"]["present"])
     if e:
-        add("lsb-map", e, lambda b: b["o"].__setitem__("lsb", b["o"]["lsb"] - 3))
-    e = first(lambda e: e["ev"] == "Metric" and any(e["a"]["coords"]) and e["o"]["value"] != e["a"]["base"]
-              and e["a"]["lo"] < e["o"]["value"] < e["a"]["hi"])
+        add("lsb-map", e, lambda b: setk(b["o"], "lsb", 20000))
+    # the font promises lsb = xMin and the model leaves the side bearing point at 0 (a.exp[-1] = [-1, 1])
+    e = first(lambda e: moving(e) and e["a"]["kind"] in ("simple", "composite") and not e["a"]["hvar"]["lsb"]["present"]
+              and e["a"]["lsbAt0"] and e["a"]["lsb"] == e["a"]["xmin"] and e["a"]["exp"][-1] == [-1, 1])
     if e:
-        add("metric", e, lambda b: b["o"].__setitem__("value", b["a"]["base"]))
-    e = first(lambda e: e["ev"] == "Metric" and not any(e["a"]["coords"]))
+        add("lsb-xmin", e, lambda b: (setk(b["o"], "hbox", [7, 0, 10, 10]), setk(b["o"], "obox", [7, 0, 10, 10]),
+                                      setk(b["o"], "lsb", 9)))
+
+    def genm(e):
+        return e["ev"] == "Metric" and str(e["case"]).startswith("g")
+
+    e = first(lambda e: genm(e) and e["a"]["present"] and any(e["a"]["coords"]) and e["a"]["base"] < 2000)
     if e:
-        add("default-metric", e, lambda b: b["o"].__setitem__("value", b["o"]["value"] + 1))
-    e = first(lambda e: e["ev"] == "Static")
+        add("metric", e, lambda b: setk(b["o"], "value", b["a"]["base"] + 3000))
+    e = first(lambda e: genm(e) and e["a"]["present"] and not any(e["a"]["coords"]))
     if e:
-        add("tables", e, lambda b: b["o"]["tags"].append("gvar"))
-        add("is-variable", e, lambda b: b["o"].__setitem__("isVariable", True))
-        add("loads", e, lambda b: b["o"].__setitem__("loads", False))
-        add("panic", e, lambda b: b.update(ev="Failed", a={"user": b["a"]["user"], "stage": "instance", "generated": False},
-                                           o={"err": "Panic:selftest @ src/x.rs:1"}))
+        add("default-metric", e, lambda b: setk(b["o"], "value", b["a"]["base"] + 1))
+    e = first(lambda e: genm(e) and not e["a"]["present"] and any(e["a"]["coords"]))
+    if e:
+        add("metric-absent", e, lambda b: setk(b["o"], "value", b["a"]["base"] + 1))
+    # Static: built from scratch
+    e = {"i": 0, "case": "", "ev": "Static", "a": {"user": [0]},
+         "o": {"tags": ["glyf", "head"], "isVariable": False, "loads": True, "glyphs": 4, "srcGlyphs": 4,
+               "head": [-5, -5, 9, 9], "ubox": [-5, -5, 9, 9]}}
+    add("tables", e, lambda b: b["o"]["tags"].append("gvar"))
+    add("is-variable", e, lambda b: setk(b["o"], "isVariable", True))
+    add("loads", e, lambda b: setk(b["o"], "loads", False))
+    add("head-bbox", e, lambda b: setk(b["o"], "head", [-5, -5, 8, 9]))
+    add("panic", e, lambda b: b.update(ev="Failed", a={"user": b["a"]["user"], "stage": "instance", "generated": False},
+                                       o={"err": "Panic:selftest @ src/x.rs:1"}))
     return planted
 
 
 PLANT_EXPECTED = {"point", "shape", "transport", "normalized", "point-composite", "default-point", "default-adv",
                   "default-lsb", "adv-phantom", "lsb-outline", "adv-hvar", "lsb-map", "metric", "default-metric",
-                  "tables", "is-variable", "loads", "panic"}
+                  "tables", "is-variable", "loads", "panic", "bbox", "lsb-xmin", "metric-absent", "head-bbox"}
 # clause printed by the judge for each planted corruption
 PLANT_CLAUSE = {"point-composite": "point"}
+
+# vacuity of the generation-2 families: counters computed by TLC for every CASE (field "vac"), summed here
+VAC_REQUIRED = [
+    "avar_fonts", "avar_skew_tuples", "avar_all_default_patterns", "avar_axes3", "avar_maps_knots0", "avar_maps_knots3",
+    "avar_maps_knots9", "avar_with_hvar", "avar_user_tuples", "avar_fvar_axis_size_gt20",
+    "nest_forward_refs", "nest_backward_refs", "nest_depth3", "nest_forward_no_hvar", "nest_forward_hvar_no_lsbmap",
+    "nest_forward_hvar_lsbmap", "nest_unvaried_composite",
+    "lay_mvar_rec8", "lay_mvar_rec10", "lay_mvar_rec12", "lay_mvar_big_several_records", "lay_mvar_absent_tags",
+    "lay_mvar_first_tag_absent", "lay_mvar_two_subs", "lay_hvar_long_words", "lay_hvar_ri_not_prefix",
+    "lay_hvar_several_subs", "lay_map_entry1", "lay_map_entry2", "lay_map_entry3", "lay_map_entry4", "lay_map_format1",
+    "lay_map_outer_nonzero", "lay_fvar_axis_size_gt20", "lay_fvar_instances", "lay_fvar_offset_gt16"]
 
 
 def _judge(ctx, trace, tag, parts):
@@ -163,6 +203,8 @@ def run(ctx):
     lemma = {}
     fams = {}
     sample_cases = []
+    vac = {}
+    gen2 = {}
     with open(cases_path, "w") as fc:
         def sink(tag, payload):
             if tag == "CASE":
@@ -175,6 +217,12 @@ def run(ctx):
                     c = json.loads(payload)
                     c["user"], c["norm"], c["expect"] = c["user"][:2], c["norm"][:2], c["expect"][:2]
                     sample_cases.append(c)
+                if '"gen":2' in payload:
+                    c = json.loads(payload)
+                    for k, v in c["vac"].items():
+                        vac[k] = vac.get(k, 0) + v
+                    key = "%s/%s" % (c["fam"], c["var"])
+                    gen2[key] = gen2.get(key, 0) + 1
             elif tag == "LEMMA":
                 lemma[payload] = lemma.get(payload, 0) + 1
         mc = vlib.run_tlc(ctx, "MC_Variation", cfg, "mc", workers=4, timeout=600 if ctx.quick else 2400, sink=sink)
@@ -184,9 +232,14 @@ def run(ctx):
     for k in ("lemma-scalar", "lemma-iup", "lemma-codec-d", "lemma-codec-p", "lemma-codec-big"):
         if not lemma.get(k):
             raise vlib.ToolError("MC_Variation checked no state of %s" % k)
-    for k in ("iup", "region1", "region2", "enc", "metric", "big"):
+    for k in ("iup", "region1", "region2", "enc", "metric", "big", "avar", "nest", "lay"):
         if not fams.get(k):
             raise vlib.ToolError("MC_Variation generated no case of family %s" % k)
+    # generation 2: what the families exercise, counted by TLC itself for every CASE
+    ctx.note("generation-2 fonts %s; counters %s" % (json.dumps(gen2, sort_keys=True), json.dumps(vac, sort_keys=True)))
+    for k in VAC_REQUIRED:
+        if not vac.get(k):
+            raise vlib.ToolError("MC_Variation: the generation-2 families are vacuous for '%s'" % k)
 
     # spec -> impl
     gen_trace = ctx.path("gen_trace.ndjson")
@@ -206,10 +259,13 @@ def run(ctx):
     for e in rec_events:
         e["i"] += 10 ** 7
     events = gen_events + rec_events
+    # Anything wrong with the check itself from here on is collected in `problems`: violations that were
+    # found are reported first (exit 1), a tool error is raised only when there is nothing to report.
+    problems = []
     planted = _plant(events)
     missing = PLANT_EXPECTED - {p[0] for p in planted}
     if missing:
-        raise vlib.ToolError("binding self-check could not be planted: %s" % sorted(missing))
+        problems.append("binding self-check could not be planted: %s" % sorted(missing))
     trace = ctx.path("trace.ndjson")
     vlib.write_ndjson(trace, events + [p[1] for p in planted])
     user_of = {e["case"]: e["a"]["user"] for e in events if e["ev"] in ("Static", "Failed")}
@@ -254,16 +310,17 @@ def run(ctx):
             vlib.short(m["want"], 60), m["coords"], m["nbad"])
         violations.append(Violation(_key(m), what, detail))
     if transport:
-        raise vlib.ToolError("the judge's evaluation of the written font disagrees with MC_Variation's expectation "
-                             "(harness writer / reader or decoder defect): %s" % vlib.short(transport[0], 600))
-    missing = PLANT_EXPECTED - planted_seen
+        problems.append("the judge's evaluation of the written font disagrees with MC_Variation's expectation "
+                        "(harness writer / reader or decoder defect): %s" % vlib.short(transport[0], 600))
+    missing = {p[0] for p in planted} - planted_seen
     if missing:
-        raise vlib.ToolError("binding self-check failed: corrupted events accepted by Trace_Variation: %s" %
-                             sorted(missing))
+        problems.append("binding self-check failed: corrupted events accepted by Trace_Variation: %s" % sorted(missing))
 
     # vacuity counters from the judge's own classification of every Glyph event
     cnt = {"glyph_events": 0, "at_default": 0, "varied": 0, "with_active_tuples": 0, "two_or_more_active": 0,
-           "with_inferred_points": 0, "inferred_points": 0, "rounded_numbers": 0, "numbers": 0}
+           "with_inferred_points": 0, "inferred_points": 0, "rounded_numbers": 0, "numbers": 0,
+           "header_box_judged": 0, "header_box_judged_composite": 0, "lsb_equals_xmin_judged": 0,
+           "lsb_equals_xmin_judged_composite": 0}
     by = {"kind": {}, "hvar": {}, "lsbrule": {}}
     lsb_unjudged = 0
     for s in other["STAT"]:
@@ -277,6 +334,10 @@ def run(ctx):
         cnt["rounded_numbers"] += s["frac"]
         cnt["numbers"] += 2 * s["n"] + 2
         lsb_unjudged += not s["lsbJudged"]
+        cnt["header_box_judged"] += s["boxJudged"]
+        cnt["header_box_judged_composite"] += s["boxJudged"] and s["kind"] == "composite"
+        cnt["lsb_equals_xmin_judged"] += s["relJudged"]
+        cnt["lsb_equals_xmin_judged_composite"] += s["relJudged"] and s["kind"] == "composite"
         for k in by:
             by[k][s[k]] = by[k].get(s[k], 0) + 1
     cnt["lsb_unjudged"] = lsb_unjudged
@@ -285,12 +346,23 @@ def run(ctx):
     need += [("kind " + k, by["kind"].get(k, 0)) for k in ("simple", "composite", "empty", "cff")]
     need += [("hvar " + k, by["hvar"].get(k, 0)) for k in ("none", "direct", "map")]
     need += [("lsb rule " + k, by["lsbrule"].get(k, 0)) for k in ("map", "outline", "cff")]
+    need += [("header boxes judged", cnt["header_box_judged_composite"]),
+             ("lsb = xMin judged", cnt["lsb_equals_xmin_judged_composite"])]
+    absent = sum(1 for e in events if e["ev"] == "Metric" and not e["a"]["present"])
     need += [("metric events", sum(1 for e in events if e["ev"] == "Metric")),
+             ("metric events for tags without a value record", absent),
              ("static events", sum(1 for e in events if e["ev"] == "Static"))]
     for name, v in need:
         if not v:
-            raise vlib.ToolError("trace is vacuous for '%s'" % name)
+            problems.append("trace is vacuous for '%s'" % name)
     real = [m for m in mism if not str(m["case"]).startswith("selftest-")]
+    if problems:
+        known = vlib.load_known(ctx.prop)
+        if any(v.key not in known for v in violations):
+            for pr in problems:
+                ctx.note("not checked because the tree is broken (violations are reported instead): %s" % pr[:400])
+        else:
+            raise vlib.ToolError("; ".join(problems))
     coverage = {
         "states": mc.distinct,
         "transitions": rep.get("instances", 0) + rec.get("instances", 0),
@@ -299,6 +371,9 @@ def run(ctx):
         "lemma_states": lemma,
         "generated_cases": n_cases[0],
         "generated_case_families": fams,
+        "generation2_fonts": gen2,
+        "generation2_counters_from_tlc": vac,
+        "metric_events_for_absent_tags": absent,
         "instance_calls_generated": rep.get("instances", 0),
         "instance_calls_repository_fonts": rec.get("instances", 0),
         "repository_variable_fonts": rec.get("font_names", []),
